@@ -791,7 +791,7 @@ def run(ctx: Ctx):
                        f"≤{max_rows} rows (state, a|λ, top) → (state, push of length ≤2), initial stack Z, × all "
                        f"acceptance modes × all final sets × words '', a, aa, aaa (level budget {lc})")
     # the next size of the same domain, sampled
-    for n_states, n_rows, quick_n, thorough_n in ((1, 3, 250, 0), (2, 2, 300, 0), (2, 3, 250, 6000)):
+    for n_states, n_rows, quick_n, thorough_n in ((1, 3, 250, 0), (2, 2, 300, 0), (2, 3, 250, 3000)):
         count = ctx.budget(quick_n, thorough_n) if (quick_n if not thorough else thorough_n) else 0
         if not count:
             continue
@@ -802,10 +802,10 @@ def run(ctx: Ctx):
             rows = tuple((rng.choice(keys), (rng.choice(states), rng.choice(pushes))) for _ in range(n_rows))
             run_small(ctx, n_states, rows, words, f"sampled_small_{n_states}st_{n_rows}rows", lc, sc)
     # ---- shaped random
-    for _ in range(ctx.budget(2000, 40000)):
+    for _ in range(ctx.budget(2000, 25000)):
         spec = (dense_table if rng.random() < 0.6 else rand_table)(rng, "N", False)
         check_table(ctx, "N", spec, rand_words(rng, spec, 4, 6, "N"), "random_npda", 40 if thorough else 24, 80)
-    for _ in range(ctx.budget(2000, 40000)):
+    for _ in range(ctx.budget(2000, 25000)):
         spec = (dense_table if rng.random() < 0.6 else rand_table)(rng, "D", rng.random() < 0.85)
         check_table(ctx, "D", spec, rand_words(rng, spec, 4, 6, "D"), "random_dpda", 40 if thorough else 24, 80)
     # ---- malformed definitions
